@@ -2,6 +2,7 @@ package checks
 
 import (
 	"fmt"
+	"strings"
 	"go/token"
 	"go/types"
 
@@ -165,6 +166,11 @@ func checkC02(c *Ctx) *report.Result {
 	c.schedulerLemmas(r, m)
 	c.interruptSequences(r, m)
 	c.sequenceInstall(r, m)
+	// the rows and predicates the lemmas talk about must belong to the instance that executes them
+	r.Rule("S5", "the dispatch rows, interrupt sequences and early-exit predicates are per-instance state: nothing in package cpu that New or the run phase writes is package-level (rule G2 of C25 restricted to package cpu)")
+	adopt(r, checkC25(c), map[string]string{"G2": "S5"}, "a table shared between machines makes one machine's instruction length depend on another machine's flags", func(f report.Finding) bool {
+		return strings.Contains(f.Construct, "state cpu.") || strings.Contains(f.Construct, "(*cpu.")
+	})
 	_ = it
 	return r
 }
